@@ -72,6 +72,8 @@ pub trait MpmcApi: 'static {
     fn try_receive(r: &Self::Rx) -> Result<Val, TryReceiveError>;
     fn close_rx(r: &Self::Rx) -> CloseStatus;
     fn stream(r: Self::Rx) -> Self::Strm;
+    /// `SharedStream::close()` (shared flavour only)
+    fn close_stream(s: &Self::Strm) -> Option<CloseStatus>;
     fn cancel(f: Pin<&mut Self::SendFut>) -> Option<Val>;
     fn snapshot(o: &Self::Obs, is_live: IsLive<'_>) -> Snapshot;
 }
@@ -118,6 +120,9 @@ impl<M: RawMutex + 'static, A: RingBuf<Item = Val> + 'static> MpmcApi for Borrow
     }
     fn stream(r: Self::Rx) -> Self::Strm {
         r.stream()
+    }
+    fn close_stream(_s: &Self::Strm) -> Option<CloseStatus> {
+        None
     }
     fn cancel(f: Pin<&mut Self::SendFut>) -> Option<Val> {
         // Safety: cancel() does not move the future
@@ -170,6 +175,9 @@ impl<M: RawMutex + 'static, A: RingBuf<Item = Val> + 'static, const GROW: bool> 
     }
     fn stream(r: Self::Rx) -> Self::Strm {
         r.into_stream()
+    }
+    fn close_stream(s: &Self::Strm) -> Option<CloseStatus> {
+        Some(s.close())
     }
     fn cancel(f: Pin<&mut Self::SendFut>) -> Option<Val> {
         // Safety: cancel() does not move the future
@@ -463,7 +471,16 @@ impl<A: MpmcApi> MpmcWorld<A> {
         if let Some(order) = orders.get(1) {
             let model_order: Vec<usize> = self.parked.iter().map(|(id, _)| *id).collect();
             if *order != model_order {
-                env.fail("C09", "parked-order", format!("after {}: senders parked in order {:?}, model says {:?}", opname, order, model_order), false);
+                // the internal order is the mechanism, not the property: only a different *set* of
+                // parked senders gates here; a different order shows up at the next receive (fifo-order)
+                let (mut a, mut b) = (order.clone(), model_order.clone());
+                a.sort_unstable();
+                b.sort_unstable();
+                if a != b {
+                    env.fail("C09", "parked-set", format!("after {}: senders parked: {:?}, model says {:?}", opname, order, model_order), false);
+                } else {
+                    env.probe("parked_order_differs_from_model");
+                }
             }
         }
         let model = [self.closed as u64, self.buf.len() as u64, self.parked.len() as u64, self.cap as u64, self.n_tx as u64, self.n_rx as u64];
@@ -639,7 +656,7 @@ impl<A: MpmcApi> World for MpmcWorld<A> {
         if rxs.is_empty() {
             w[6] = 0;
         }
-        if txs.is_empty() && rxs.is_empty() {
+        if txs.is_empty() && rxs.is_empty() && !(A::SHARED && has_stream) {
             w[7] = 0;
         }
         if !A::SHARED || txs.is_empty() || txs.len() >= MAX_HANDLES {
@@ -691,7 +708,12 @@ impl<A: MpmcApi> World for MpmcWorld<A> {
             }
             OP_TRY_RECV => Op::new(OP_TRY_RECV, 0, *rng.pick(&rxs) as u32, 0),
             OP_CLOSE => {
-                if !txs.is_empty() && (rxs.is_empty() || rng.pct(50)) {
+                let stream_id = live.iter().copied().find(|id| env.slots[*id].kind == K_STREAM);
+                if A::SHARED && stream_id.is_some() && rng.pct(40) {
+                    Op::new(OP_CLOSE, 2, 0, stream_id.unwrap() as u64)
+                } else if txs.is_empty() && rxs.is_empty() {
+                    Op::new(OP_CLOSE, 2, 0, stream_id.unwrap_or(0) as u64)
+                } else if !txs.is_empty() && (rxs.is_empty() || rng.pct(50)) {
                     Op::new(OP_CLOSE, 0, *rng.pick(&txs) as u32, 0)
                 } else {
                     Op::new(OP_CLOSE, 1, *rng.pick(&rxs) as u32, 0)
@@ -985,8 +1007,17 @@ impl<A: MpmcApi> World for MpmcWorld<A> {
             }
             OP_CLOSE => {
                 if self.prim_alive {
-                    let via_rx = op.a != 0;
-                    let r = if via_rx {
+                    let via_rx = op.a == 1;
+                    let r = if op.a == 2 {
+                        // SharedStream::close(): c = slot of the stream
+                        let sid = op.c as usize % MAX_IDS;
+                        if self.streams.is_live(sid) && env.slots[sid].alive() && env.slots[sid].kind == K_STREAM {
+                            let st = self.streams.get(sid);
+                            env.call("stream close", || A::close_stream(st)).flatten()
+                        } else {
+                            None
+                        }
+                    } else if via_rx {
                         match self.rxs[hidx].as_ref() {
                             Some(rx) => env.call("close", || A::close_rx(rx)),
                             None => None,
@@ -1286,6 +1317,9 @@ impl<M: RawMutex + 'static> MpmcApi for BorrowedGrowing<M> {
     }
     fn stream(r: Self::Rx) -> Self::Strm {
         r.stream()
+    }
+    fn close_stream(_s: &Self::Strm) -> Option<CloseStatus> {
+        None
     }
     fn cancel(f: Pin<&mut Self::SendFut>) -> Option<Val> {
         Borrowed::<M, GrowingHeapBuf<Val>>::cancel(f)
